@@ -571,7 +571,20 @@ func runC02(c *mc.Ctx) {
 				}
 			}
 		}
-		c.Space("every byte value at every position of valid cashaddr strings", int64(len(subs)))
+		// ... and every non-ASCII rune whose case mapping is an ASCII character, at every position
+		for _, nn := range []string{"mainnet", "regtest"} {
+			rn := refNet(nn)
+			for _, h0 := range []byte{0x00, 0x01, 0x5a} {
+				h := bytes.Repeat([]byte{h0}, 20)
+				pay := ref.CashEncode(rn.CashPrefix, 0, h)
+				for _, b := range []string{pay, strings.ToUpper(pay), rn.CashPrefix + ":" + pay, strings.ToUpper(rn.CashPrefix + ":" + pay)} {
+					for _, m := range runeSubstitutions(b) {
+						subs = append(subs, sc{nn, m})
+					}
+				}
+			}
+		}
+		c.Space("every byte value / every ASCII-folding rune at every position of valid cashaddr strings", int64(len(subs)))
 		c.ParFor(int64(len(subs)), func(w *mc.W, i int64) {
 			w.State()
 			c02EvalStr(w, c02Str{Net: subs[i].net, S: subs[i].s})
